@@ -1,10 +1,14 @@
 (* C05 — Decoding accepts exactly the RFC 8259 language.
    Proved here: the buffer-mode decoder for interface{} (Unmarshal(b, &v)).
-   The stream decoder (Decoder.Decode, Valid) and typed destinations are
-   compared with the oracle on every run, not modelled. *)
+   The skip functions the typed decoders use for the parts of a document the
+   destination has no place for (skipValue, skipObject, skipArray, buffer mode)
+   are modelled too (Model/Skip.v): they step over every RFC 8259 value exactly,
+   and -- the recorded finding SkipUnvalidated -- over texts that are no values.
+   The stream decoder (Decoder.Decode, Valid) and the other typed destinations
+   are compared with the oracle on every run, not modelled. *)
 From Coq Require Import NArith ZArith List Bool.
-From GJ Require Import Base.Bytes Gen.Tables Model.Int Model.Compact Model.Iface Spec.Json
-  Proofs.JsonSpecP Proofs.IfaceP.
+From GJ Require Import Base.Bytes Gen.Tables Model.Int Model.Compact Model.Iface Model.Skip Spec.Json
+  Proofs.JsonSpecP Proofs.IfaceP Proofs.SkipP.
 Import ListNotations.
 Open Scope N_scope.
 
@@ -33,6 +37,21 @@ Proof.
   rewrite (parse_g_relax _ _ _ _ E). reflexivity.
 Qed.
 Print Assumptions C05_iface_accepts_only_rfc.
+
+(* 3. the skip functions are complete: every value of the language the interface decoder accepts at
+      nesting depth d is stepped over, whatever follows it, and the cursor lands right behind it: a
+      valid document is never refused, or read differently, because the destination skips a part of it *)
+Theorem C05_skip_steps_over_every_value : forall f d l ts rest,
+  pg_value (Some Iface.max_depth) allnum f d l = Some (ts, rest) ->
+  sk_value (Z.of_nat d) (l ++ [0]) = SOk (rest ++ [0]).
+Proof. exact skip_value_complete. Qed.
+Print Assumptions C05_skip_steps_over_every_value.
+
+(* ... but they are not sound: the recorded finding SkipUnvalidated, as a theorem about the model
+   ("[1 2 }}]" is no JSON text and is stepped over as one value) *)
+Theorem C05_skip_accepts_non_json_refuted :
+  exists data, rfc_json data = false /\ sk_value 1 (data ++ [0]) = SOk [0].
+Proof. exact skip_value_lenient_refuted. Qed.
 
 (* the nesting limit is the one in the source *)
 Example C05_limit : Iface.max_depth = 10000%nat.
